@@ -9,6 +9,7 @@
 import NemoVerif.Lemmas.Pipeline
 import NemoVerif.Lemmas.PipelineV2
 import NemoVerif.Lemmas.PipelineTie
+import NemoVerif.Lemmas.PipelineCtx
 
 set_option linter.unusedSimpArgs false
 
@@ -234,5 +235,32 @@ theorem no_poison_v2 (cfg : Cfg) (h : HistV2) (t t' : Turn) (hfr : cfg.flagReset
   refine ⟨h1, ?_⟩
   rw [turnV2_eq_spec cfg _ t' hi ho h1, turnSpecV2_trace]
   simp [railCalls_input_inStopV2, railCalls_input_restV2]
+
+/-! ### Colang 1.0: what a hidden turn leaves behind (`Models/PipelineCtx.lean`) -/
+
+section TwoContexts
+open NemoVerif.PipelineCtx
+
+/-- `hidden_turn_leaves_nothing`: a failed action ends its turn with `hide_prev_turn`; the events of that turn stay
+    in the event list and the actions' context (`compute_context(events)`) still sees their `ContextUpdate`s
+    while the flows do not.  Whatever the event list `es` contains — any number of hidden turns, any values
+    on either side — every following conversation (any texts, repeated ones included; any verdicts; any
+    further faults) is processed exactly as from an empty history: the rails of either kind are shown
+    the same texts, the same `UserMessage` text and the same script are produced. -/
+theorem hidden_turn_leaves_nothing (inRails outRails : List Rail) (es : List Ev) (ts : List TurnE) :
+    convE false inRails outRails es ts = convE false inRails outRails [] ts := by
+  rw [convE_eq_spec, convE_eq_spec]
+
+/-- … in particular after a turn whose output rail failed AFTER `$bot_message` was set (kernel-evaluated
+    instance: the turn is hidden, the action side still holds "B"; the next turn is shown and utters "A"). -/
+example :
+    let faulty : TurnE := { user := "u", bot := "B", vin := fun _ _ => .accept, vout := fun _ _ => .fault, dialogFault := false }
+    let next : TurnE := { user := "u", bot := "A", vin := fun _ _ => .accept, vout := fun _ _ => .accept, dialogFault := false }
+    actCtx (turnE false [] [⟨0, false⟩] faulty []).2 .botMessage = some "B"
+    ∧ flowCtx (turnE false [] [⟨0, false⟩] faulty []).2 .botMessage = none
+    ∧ (convE false [] [⟨0, false⟩] [] [faulty, next]).map (fun o => (o.outCalls, o.uttered)) = [([(0, "B")], none), ([(0, "A")], some "A")] := by
+  decide
+
+end TwoContexts
 
 end NemoVerif.C03
